@@ -371,12 +371,15 @@ def main():
 
     # a time-out or a dead worker on a loaded machine is not a verdict: re-run those cases alone with a long limit
     retry = [i for i, r in enumerate(results) if r["impl"].startswith("(ImplTimeout") or r["impl"].startswith("(WorkerDied")
-             or r["model"].startswith("(WorkerDied") or r["model"].startswith("(ModelError \"64726976")]
+             or r["model"].startswith("(WorkerDied") or r["model"].startswith("(ModelError \"64726976")
+             or (hasattr(prop, "flaky") and prop.flaky(r["impl"], r["model"]))]
     if retry and len(retry) <= 200:
         os.environ["VERIF_CASE_TIMEOUT"] = "30" if tier == "quick" else "60"
+        os.environ["VERIF_STEP_LIMIT"] = "10"
         os.environ["VERIF_SHARD"] = "1"
         again = run_shards(prop_id, [cases[i] for i in retry], tier, args.seed + 1, min(4, args.jobs))
         os.environ.pop("VERIF_CASE_TIMEOUT", None)
+        os.environ.pop("VERIF_STEP_LIMIT", None)
         os.environ.pop("VERIF_SHARD", None)
         for i, r in zip(retry, again):
             results[i] = r
